@@ -175,13 +175,6 @@ def run(ctx, conc_cases=None, seed_offset=0):
     binary = C.build_harness()
     maxlen = 6 if tier == 'quick' else 8
     nconc = conc_cases or (400 if tier == 'quick' else 4000)
-    # ---- copies taken while the source is being settled are fresh, independent messages
-    cp, _ = C.run_harness(binary, ['c03copy', '-n', '3000' if tier == 'quick' else '30000'], pid, 'c03copy.json')
-    res.evaluations += cp['copies']; res.count('copies taken under contention', cp['copies'])
-    if cp['blocked']:
-        res.violations.append(dict(signature='C03/call-does-not-return-on-copy', what='a call on a fresh Copy() did not return: ' + cp.get('detail', ''), case=cp))
-    if cp['wrong']:
-        res.violations.append(dict(signature='C03/copy-not-fresh', what='a fresh Copy() taken under contention is not an unsettled first-wins message: ' + cp.get('detail', ''), case=cp))
     # ---- sequential: exhaustive sweep, compared as packed numbers
     data, _ = C.run_harness(binary, ['c03seq', '-maxlen', str(maxlen), '-random', '300' if tier == 'quick' else '3000', '-seed', str(seed)], pid, 'c03seq.json')
     allops = enumerate_ops(maxlen)
@@ -244,6 +237,16 @@ def run(ctx, conc_cases=None, seed_offset=0):
                 'and the zero value, plus random longer ones; non-trivial = contains a settling call followed by at least one more call. '
                 'concurrent: 2..16 goroutines with random programs and seeded yields inside the critical section; '
                 'non-trivial = at least two Ack/Nack calls overlap in real time; distinct by model schedule.' % maxlen)
+    # ---- copies taken while the source is being settled are fresh, independent messages
+    try:
+        cp, _ = C.run_harness(binary, ['c03copy', '-n', '3000' if tier == 'quick' else '30000'], pid, 'c03copy.json', timeout=120)
+    except Exception as e:   # the driver itself hung: some Ack/Nack call never returned
+        cp = dict(copies=0, blocked=1, wrong=0, detail='the copy-under-contention driver did not finish within 120 s (%s)' % str(e)[:120])
+    res.evaluations += cp['copies']; res.count('copies taken under contention', cp['copies'])
+    if cp['blocked']:
+        res.violations.append(dict(signature='C03/call-does-not-return-on-copy', what='a call on a fresh Copy() did not return: ' + cp.get('detail', ''), case=cp))
+    if cp['wrong']:
+        res.violations.append(dict(signature='C03/copy-not-fresh', what='a fresh Copy() taken under contention is not an unsettled first-wins message: ' + cp.get('detail', ''), case=cp))
     return res
 
 def search(ctx, res):
